@@ -26,6 +26,7 @@
 # policies, either expressed or implied, of Matt Chaput.
 
 from __future__ import division
+import copy
 
 from whoosh import matching
 from whoosh.compat import text_type, u
@@ -88,8 +89,11 @@ class CompoundQuery(qcore.Query):
         return iter(self.subqueries)
 
     def apply(self, fn):
-        return self.__class__([fn(q) for q in self.subqueries],
-                              boost=self.boost)
+        # Work on a copy so that everything else a subclass carries (slop,
+        # ordered, scale, tiebreak, ...) is kept
+        q = copy.copy(self)
+        q.subqueries = [fn(sq) for sq in self.subqueries]
+        return q
 
     def field(self):
         if self.subqueries:
@@ -205,8 +209,7 @@ class CompoundQuery(qcore.Query):
     def simplify(self, ixreader):
         subs = self.subqueries
         if subs:
-            q = self.__class__([subq.simplify(ixreader) for subq in subs],
-                               boost=self.boost).normalize()
+            q = self.apply(lambda subq: subq.simplify(ixreader)).normalize()
         else:
             q = qcore.NullQuery
         return q
